@@ -722,11 +722,14 @@ def pending_standard_id_case(ctx, k):
         conf = ColorsConfig({sid: base + ":underline"})
         akcolor.set_global_colors_config(conf)
         try:
+            kept = conf.get_palette()       # (a palette somebody obtained early and keeps)
+            kept_before = (shown_state(kept.get_color(sid)), shown_state(kept[base]))
             before = (shown_state(getattr(gp, attr)), shown_state(conf.get_color(sid)))
             if k % 2:
                 str(gp), getattr(gp, "text")        # (somebody looks at the palette in between)
             conf.add_new_items({base: "BLUE/g3"}, "a component that registers late")
             after = (shown_state(getattr(gp, attr)), shown_state(conf.get_color(sid)))
+            kept_after = (shown_state(kept.get_color(sid)), shown_state(kept[base]))
         finally:
             akcolor.set_global_colors_config(None)
     except Exception as err:
@@ -734,6 +737,10 @@ def pending_standard_id_case(ctx, k):
         return
     ctx.count("standard_ids_that_waited_for_a_late_registration")
     want = (('c', 4), ('c', 235), frozenset({'underline'}))
+    if kept_before != (sgr.DEFAULT, sgr.DEFAULT) or kept_after != (want, (('c', 4), ('c', 235), frozenset())):
+        ctx.violation("synced-palette-is-stale", {"id": sid, "palette": "obtained from the configuration before the registration",
+                                                  "shown": repr((kept_before, kept_after))[:240], "expected": repr(want)}, case)
+        return
     if before != (sgr.DEFAULT, sgr.DEFAULT) or after != (want, want):
         ctx.violation("synced-palette-is-stale" if after[1] == want and after[0] != want else
                       "formatter-differs-from-resolved-description",
@@ -741,9 +748,41 @@ def pending_standard_id_case(ctx, k):
                        "shown": repr((before, after))[:240], "expected": repr(want)}, case)
 
 
+def foreign_accessor_case(ctx, k):
+    """a palette class of one component has an accessor for an id that another component describes; the first
+    component is used before the second one has registered: the id is uncolored until then, and described by its
+    owner afterwards - whichever of the two was there first"""
+    ctx.evaluated()
+    own_id, thing = "VFO%d.OWN" % k, "VFT%d.THING" % k
+    p1 = type("VfUserPalette%d" % k, (Palette,), {"SYNTAX_DEFAULTS": {own_id: "RED"}, "own": ConfColor(own_id),
+                                                   "foreign": ConfColor(thing)})
+    p2 = type("VfOwnerPalette%d" % k, (Palette,), {"SYNTAX_DEFAULTS": {thing: "BLUE:bold"}, "thing": ConfColor(thing)})
+    case = {"kind": "foreign-accessor", "k": k}
+    try:
+        conf = ColorsConfig({"VFX%d" % k: thing + ":underline"})
+        order = (p1, p2) if k % 2 == 0 else (p2, p1)
+        first = order[0](conf)
+        early = shown_state(getattr(first, "foreign" if order[0] is p1 else "thing"))
+        order[1](conf)
+        got = (shown_state(p1(conf).foreign), shown_state(p2(conf).thing), shown_state(conf.get_color(thing)),
+               shown_state(conf.get_color("VFX%d" % k)))
+    except Exception as err:
+        ctx.violation("registration-raises", {"type": type(err).__name__, "msg": str(err)[:120]}, case)
+        return
+    ctx.count("palette_classes_with_an_accessor_for_another_component's_id")
+    blue = (('c', 4), None, frozenset({'bold'}))
+    want = (blue, blue, blue, (('c', 4), None, frozenset({'bold', 'underline'})))
+    if got != want or early != (sgr.DEFAULT if order[0] is p1 else blue):
+        ctx.violation("formatter-differs-from-resolved-description",
+                      {"ids": [thing], "shown": repr((early, got))[:240], "step": "an accessor for another component's id, "
+                       + ("used before" if order[0] is p1 else "used after") + " the owner registered"}, case)
+
+
 def run_shard(ctx):
     for k in range(3):
         built_in_amended_case(ctx, ctx.shard * 10 + k)
+    for k in range(8):
+        foreign_accessor_case(ctx, ctx.shard * 8 + k)
     for k in range(10):
         pending_standard_id_case(ctx, ctx.shard * 10 + k)
     for k in range(6):
@@ -780,6 +819,9 @@ def replay(ctx, case):
         return
     if case.get("kind") == "built-in-amended":
         built_in_amended_case(ctx, 900 + case["k"])
+        return
+    if case.get("kind") == "foreign-accessor":
+        foreign_accessor_case(ctx, case["k"])
         return
     if case.get("kind") == "pending-standard-id":
         pending_standard_id_case(ctx, case["k"])
